@@ -361,6 +361,9 @@ pub fn run(session: &Session, prop: &'static Soundness) -> i32 {
     for text in crate::genr::nearmiss::binder_scope_programs() {
         cases.push(json!({"kind": "near-miss", "text": text}));
     }
+    for text in crate::genr::nearmiss::missing_return_programs() {
+        cases.push(json!({"kind": "near-miss", "text": text}));
+    }
     for text in crate::genr::nearmiss::literal_spelling_programs() {
         cases.push(json!({"kind": "near-miss", "text": text}));
     }
